@@ -30,12 +30,14 @@ MIN_NONTRIVIAL = 200
 refsem.LEAVES.setdefault("M4", {"kind": "ext", "ports": [("s", 1), ("g", 1), ("d", 1), ("b", 1)]})  # permuted MOS-like port order
 refsem.LEAVES.setdefault("M5", {"kind": "ext", "ports": [("g", 1), ("d", 1), ("s", 1), ("b", 1), ("dnw", 1)]})
 refsem.LEAVES.setdefault("BI", {"kind": "ext", "ports": [("a", 2), ("b", 2), ("i", 1), ("en", 3)]})  # has a port named `i`
+# ports named like the attributes the generators create themselves
+refsem.LEAVES.setdefault("NM", {"kind": "ext", "ports": [("i", 1), ("i_", 1), ("units", 1), ("inner", 1), ("o", 1)]})
 
 
 def unit_specs():
     """(label, unit target, list of modules the unit needs, scalar ports {name: width}, bundle ports {name: bundle})"""
     out = []
-    for leaf in ("R", "C", "VCVS", "MOS", "E1", "E3", "M4", "M5", "BI"):
+    for leaf in ("R", "C", "VCVS", "MOS", "E1", "E3", "M4", "M5", "BI", "NM"):
         out.append((leaf, ["leaf", leaf], [], dict(refsem.LEAVES[leaf]["ports"]), {}))
     # a module with bus ports
     um = {"name": "U", "style": "proc", "ports": [["x", 2, "in"], ["y", 2, "out"], ["k", 1, "inout"], ["v", 3, "none"]], "bports": [],
